@@ -4,6 +4,7 @@ import (
 	"encoding/json"
 	"fmt"
 	"runtime"
+	"strings"
 	"sync"
 	"sync/atomic"
 	"time"
@@ -17,6 +18,8 @@ import (
 
 // C11 — independent VMs are race-free and behave exactly as when run alone.
 
+var c11Uniq int64
+
 type c11Job struct {
 	cfg   Cfg
 	progs []string
@@ -24,10 +27,10 @@ type c11Job struct {
 }
 
 func c11Program(r *fw.Rand) string {
-	switch r.Intn(16) {
+	switch r.Intn(17) {
 	case 0, 1:
 		return gen.DiceProgram(r)
-	case 2:
+	case 16:
 		return gen.ValidProgram(r, 3, r.Bool())
 	case 3:
 		return "(" + gen.ValidProgram(r, 2, false) // parse failure → error message in the VM's language
@@ -37,8 +40,8 @@ func c11Program(r *fw.Rand) string {
 		return "dir([]).len() + dir({}).len() + typeId(toStr)"
 	case 6:
 		return "`a{d6}b{% x = 2d6kh1 %}c`"
-	case 7:
-		return "2d + d + 3d" // default side expression cache
+	case 7, 2:
+		return r.Pick([]string{"2d + d + 3d", "d", "2d", "x = d; x + 3d"}) // default side expression cache
 	case 8:
 		return "func g(n) { if n < 1 { return 0 }; d4 + g(n-1) }; g(3)"
 	case 9:
@@ -103,6 +106,10 @@ func c11Case(w *fw.W, idx int, r *fw.Rand) {
 		if c.DefSide == "1 +" {
 			c.DefSide = "20"
 		}
+		if r.P(1, 2) {
+			// default-side expressions whose compilation depends on the VM's own flags
+			c.DefSide = r.Pick([]string{"b", "f + 10", "p1 + 1", "2d6kh1", "3a8 + 6", "b"})
+		}
 		jobs[g].cfg = c
 		for i := 0; i < per; i++ {
 			jobs[g].progs = append(jobs[g].progs, c11Program(r))
@@ -114,6 +121,27 @@ func c11Case(w *fw.W, idx int, r *fw.Rand) {
 		vm := jobs[g].cfg.NewVM()
 		for _, p := range jobs[g].progs {
 			jobs[g].want = append(jobs[g].want, c11RunOne(vm, p))
+		}
+	}
+	// "as when run alone" must not depend on which other VMs ran earlier in the process either:
+	// the baselines are taken a second time in reverse VM order and must be identical. The
+	// second pass pads DefaultDiceSideExpr with a process-unique number of trailing blanks —
+	// an expression that means the same but shares no text with any other VM's — so that any
+	// process-wide state keyed by configuration text cannot serve it either.
+	for g := len(jobs) - 1; g >= 0; g-- {
+		if jobs[g].cfg.Seed == 0 {
+			continue
+		}
+		c2 := jobs[g].cfg
+		if c2.DefSide != "" {
+			c2.DefSide += strings.Repeat(" ", int(atomic.AddInt64(&c11Uniq, 1)))
+		}
+		vm := c2.NewVM()
+		for i, p := range jobs[g].progs {
+			if got := c11RunOne(vm, p); got != jobs[g].want[i] {
+				w.Violate(idx, "isolation", "isolation|depends-on-earlier-vms", fmt.Sprintf("cfg=%s program#%d=%q (history %q)", jobs[g].cfg, i, p, jobs[g].progs[:i]), fmt.Sprintf("the same seeded VM run sequentially gives\n%s\nafter other VMs ran, but\n%s\nwhen it ran before them", trunc(got, 600), trunc(jobs[g].want[i], 600)), nil)
+				break
+			}
 		}
 	}
 	var yctr uint64
